@@ -17,9 +17,31 @@ import (
 type Sink struct {
 	Buf   []byte
 	Calls []int // bytes accepted per Write call
+	// FailAt >= 0: the medium fails once this many bytes have been accepted
+	// (disk full, peer gone): the call that crosses the limit is a short
+	// write with an error, every later call accepts nothing. The zero value
+	// of Sink never fails (FailAt is only honoured when Faulty is set).
+	Faulty bool
+	FailAt int
+	Failed bool
 }
 
 func (s *Sink) Write(p []byte) (int, error) {
+	if s.Faulty {
+		room := s.FailAt - len(s.Buf)
+		if room < 0 {
+			room = 0
+		}
+		if s.Failed || len(p) > room {
+			s.Failed = true
+			if room > len(p) {
+				room = len(p)
+			}
+			s.Buf = append(s.Buf, p[:room]...)
+			s.Calls = append(s.Calls, room)
+			return room, ErrInjected
+		}
+	}
 	s.Buf = append(s.Buf, p...)
 	s.Calls = append(s.Calls, len(p))
 	return len(p), nil
